@@ -35,30 +35,40 @@ def serial_checks(V):
     """parallel=1: the exception must propagate to the caller (host-language semantics)."""
     from toasty.pyramid import Pyramid
     from toasty import transform
+    import os
     n = 0
     sink = io.StringIO()
-    for what in ("walk", "visit_leaves", "transform"):
-        raised = False
-        try:
-            with contextlib.redirect_stdout(sink):
-                if what == "walk":
-                    def cb(pos):
-                        raise RuntimeError("boom")
-                    Pyramid.new_generic(2).walk(cb, parallel=1)
-                elif what == "visit_leaves":
-                    def cb2(pos, tile):
-                        raise RuntimeError("boom")
-                    Pyramid.new_generic(1).visit_leaves(cb2, parallel=1)
-                else:
-                    def do_one(buf, pos, a, b):
-                        raise RuntimeError("boom")
-                    transform._do_a_transform(None, 1, lambda: None, do_one, parallel=1)
-        except RuntimeError:
-            raised = True
-        n += 1
-        if not raised:
-            V.disagreement("serial mode propagates callback errors", dict(stage=what, parallel=1),
-                           "RuntimeError reaches the caller", "no exception", True)
+    saved_jpy = os.environ.pop("JPY_PARENT_PID", None)      # progress bars behave differently under Jupyter
+    try:
+        for what in ("walk", "visit_leaves", "transform"):
+            for progress in (False, True):                   # with and without the progress bar (stdout is not a tty here)
+                for when in (1, 3):                          # failing at the first / a later item
+                    raised = False
+                    calls = [0]
+
+                    def boom():
+                        calls[0] += 1
+                        if calls[0] >= when:
+                            raise RuntimeError("boom")
+                    try:
+                        with contextlib.redirect_stdout(sink):
+                            if what == "walk":
+                                Pyramid.new_generic(2).walk(lambda pos: boom(), parallel=1, cli_progress=progress)
+                            elif what == "visit_leaves":
+                                Pyramid.new_generic(1).visit_leaves(lambda pos, tile: boom(), parallel=1, cli_progress=progress)
+                            else:
+                                transform._do_a_transform(None, 1, lambda: None, lambda buf, pos, a, b: boom(),
+                                                          parallel=1, cli_progress=progress)
+                    except RuntimeError:
+                        raised = True
+                    n += 1
+                    if not raised:
+                        V.disagreement("serial mode propagates callback errors",
+                                       dict(stage=what, parallel=1, cli_progress=progress, fails_at_call=when),
+                                       "RuntimeError reaches the caller", "no exception", True)
+    finally:
+        if saved_jpy is not None:
+            os.environ["JPY_PARENT_PID"] = saved_jpy
     return n
 
 
